@@ -49,6 +49,8 @@ class RegDriver:
         self.canon = canon if canon is not None else {}
         self.check_frame = check_frame
         self.frame_errors: list[str] = []
+        self.payloads: dict[int, dict] = {}
+        self.fmt = "dict"
         from pyoak.node import NODE_REGISTRY, ASTNode
         self.REG = NODE_REGISTRY
         self.ASTNode = ASTNode
@@ -85,12 +87,29 @@ class RegDriver:
 
     # ---- fingerprints for the frame condition (C10)
     def fingerprints(self) -> dict[str, tuple]:
+        """per live node: (object id, [(field, value)], hash).  Compared with `same_fp`."""
         fp = {}
         for s, o in self.live().items():
-            fp[s] = (id(o),) + tuple(
-                (f.name, id(getattr(o, f.name)) if f.name not in ("id", "content_id") else getattr(o, f.name))
-                for f in dataclasses.fields(o)) + (hash(o),)
+            fp[s] = (id(o), [(f.name, getattr(o, f.name)) for f in dataclasses.fields(o)], hash(o))
         return fp
+
+    def same_fp(self, a, b) -> str | None:
+        if a[0] != b[0]:
+            return "object identity"
+        if a[2] != b[2]:
+            return "hash"
+        for (n, x), (_, y) in zip(a[1], b[1]):
+            if x is y:
+                continue
+            # a node-valued (or tuple-of-nodes) field must hold the very same objects; other values may be
+            # replaced by an equal value of the same type without counting as a change
+            if isinstance(x, self.ASTNode) or isinstance(y, self.ASTNode):
+                return f"field {n}"
+            if isinstance(x, tuple) and isinstance(y, tuple) and len(x) == len(y) and all(p is q for p, q in zip(x, y)):
+                continue
+            if type(x) is not type(y) or x != y or any(isinstance(p, self.ASTNode) for p in (x if isinstance(x, tuple) else ())):
+                return f"field {n}"
+        return None
 
     # ---- events
     def chg_kwargs(self, src_slot: str, chg) -> dict:
@@ -167,6 +186,41 @@ class RegDriver:
             ret = self.get(ev["src"]).detach_self()
             if ret is not ev["popped"]:
                 raise Mismatch("detach_self-result", f"detach_self() returned {ret}, expected {ev['popped']}")
+        elif op == "ser":
+            o = self.get(ev["src"])
+            self.payloads[ev["blob"]] = {"cls": type(o), "dict": o.as_dict(), "json": o.to_json(),
+                                         "msgpack": o.to_msgpck(), "yaml": o.to_yaml()}
+        elif op == "deser":
+            pl = self.payloads[ev["blob"]]
+            cls = pl["cls"] if ev.get("via_root_class", True) else self.ASTNode
+            if self.fmt == "dict":
+                res = cls.as_obj(pl["dict"])
+            elif self.fmt == "json":
+                res = cls.from_json(pl["json"])
+            elif self.fmt == "msgpack":
+                res = cls.from_msgpck(pl["msgpack"])
+            else:
+                res = cls.from_yaml(pl["yaml"])
+            names = list(ev["news"])
+            order: list = []
+            self._postorder_unnamed(res, order, set())
+            if len(order) != len(names):
+                raise Mismatch("deser-structure", f"deserialization created {len(order)} new nodes, expected {len(names)}")
+            for s, n in zip(names, order):
+                self.put(s, n, hold=False)
+            if self.name_of(res) != ev["res"]:
+                raise Mismatch("deser-identity", f"result is {self.name_of(res)}, expected {ev['res']}")
+            self.strong[ev["res"]] = res
+        elif op == "observe":
+            from .observers import observe
+            try:
+                observe(ev["kind"], self.get(ev["src"]), self.W)
+            except AssertionError as ex:
+                raise Mismatch("assign-should-raise", str(ex))
+        elif op == "forget":
+            self.payloads.pop(ev["blob"], None)
+        elif op == "dropall":
+            self.strong.clear()
         elif op == "drop":
             del self.strong[ev["src"]]
         elif op == "hold":
@@ -176,9 +230,23 @@ class RegDriver:
         if self.check_frame:
             after = self.fingerprints()
             for s, fp in before.items():
-                if s in after and after[s] != fp:
-                    raise Mismatch("frame-C10", f"{op} changed existing node {s}: {fp} -> {after[s]}")
+                if s in after:
+                    why = self.same_fp(fp, after[s])
+                    if why:
+                        raise Mismatch("frame-C10", f"{op} changed {why} of the existing node {s}")
         return ret
+
+    def _postorder_unnamed(self, n, order: list, seen: set):
+        """new (not yet named) nodes below n, children first; named nodes are not entered"""
+        if id(n) in seen or self.name_of(n) != "?foreign":
+            return
+        seen.add(id(n))
+        c = self.class_name(n)
+        for f in self.W.zi.child_fields(c):
+            v = getattr(n, f["n"])
+            for x in (v if isinstance(v, tuple) else ([] if v is None else [v])):
+                self._postorder_unnamed(x, order, seen)
+        order.append(n)
 
     def _postorder(self, n, order: list, seen: set):
         c = self.class_name(n)
@@ -281,9 +349,10 @@ class _Lookup(dict):
         return self.drv.get(s)
 
 
-def replay_behaviour(W: World, beh: dict, canon: dict, collide: bool, every_step_post: list | None = None):
+def replay_behaviour(W: World, beh: dict, canon: dict, collide: bool, fmt: str = "dict"):
     """Replay one exported behaviour; raises Mismatch."""
     drv = RegDriver(W, canon)
+    drv.fmt = fmt
     steps = beh["steps"] if beh["steps"] != [] else []
     try:
         for i, ev in enumerate(steps):
@@ -294,3 +363,4 @@ def replay_behaviour(W: World, beh: dict, canon: dict, collide: bool, every_step
     finally:
         drv.strong.clear()
         drv.weak.clear()
+        drv.payloads.clear()
